@@ -4,8 +4,11 @@
 package discover
 
 import (
+	"errors"
 	"fmt"
 	"net"
+	"sync"
+	"time"
 
 	"gitlab.com/aquachain/aquachain/rlp"
 )
@@ -142,3 +145,157 @@ func VerifValidateComplete(id NodeID) error {
 	}
 	return n.validateComplete()
 }
+
+// ---- bonding histories: a real udp + Table over a recording connection ----
+
+type verifConn struct {
+	mu     sync.Mutex
+	sent   []VerifSent
+	closed chan struct{}
+}
+
+// VerifSent is one datagram the node wrote.
+type VerifSent struct {
+	To   *net.UDPAddr
+	Data []byte
+}
+
+func (c *verifConn) ReadFromUDP(b []byte) (int, *net.UDPAddr, error) {
+	<-c.closed
+	return 0, nil, errors.New("verif: closed")
+}
+func (c *verifConn) WriteToUDP(b []byte, addr *net.UDPAddr) (int, error) {
+	c.mu.Lock()
+	c.sent = append(c.sent, VerifSent{addr, append([]byte{}, b...)})
+	c.mu.Unlock()
+	return len(b), nil
+}
+func (c *verifConn) Close() error {
+	defer func() { recover() }()
+	close(c.closed)
+	return nil
+}
+func (c *verifConn) LocalAddr() net.Addr { return &net.UDPAddr{IP: net.IP{10, 9, 9, 9}, Port: 30303} }
+
+// verifNet wraps the real udp transport; the ping-back can be made to fail at once with the error the real one
+// returns after respTimeout (so that a history does not have to wait 4 s for the timeout to elapse).
+type verifNet struct {
+	*udp
+	mu       sync.Mutex
+	pingMode string // "real" | "timeout" | "ok"
+	pings    int
+}
+
+func (n *verifNet) ping(id NodeID, addr *net.UDPAddr) error {
+	n.mu.Lock()
+	mode := n.pingMode
+	n.mu.Unlock()
+	var err error
+	switch mode {
+	case "timeout":
+		err = errTimeout
+	case "ok":
+		err = nil
+	default:
+		err = n.udp.ping(id, addr)
+	}
+	n.mu.Lock()
+	n.pings++
+	n.mu.Unlock()
+	return err
+}
+
+// VerifDisc is a discovery endpoint (real udp, real Table, in-memory node DB) whose datagrams are injected directly
+// into handlePacket and whose outgoing datagrams are recorded.
+type VerifDisc struct {
+	t    *udp
+	tab  *Table
+	conn *verifConn
+	net  *verifNet
+}
+
+func VerifNewDisc(priv *PrivateKey, chainID uint64) (*VerifDisc, error) {
+	c := &verifConn{closed: make(chan struct{})}
+	tab, t, err := newUDP(c, Config{PrivateKey: priv, ChainId: chainID})
+	if err != nil {
+		return nil, err
+	}
+	select {
+	case <-tab.initDone:
+	case <-time.After(20 * time.Second):
+		return nil, errors.New("verif: table initialisation did not finish")
+	}
+	n := &verifNet{udp: t, pingMode: "real"}
+	tab.net = n
+	return &VerifDisc{t: t, tab: tab, conn: c, net: n}, nil
+}
+
+// SetPingBack selects how the node's own ping (the ping-back of the bonding process) ends: "real" (wire + 4 s
+// respTimeout), "timeout" (fails at once with errTimeout) or "ok" (a matching pong is taken as received).
+func (d *VerifDisc) SetPingBack(mode string) {
+	d.net.mu.Lock()
+	d.net.pingMode = mode
+	d.net.mu.Unlock()
+}
+
+// Inject hands one datagram to the real handlePacket, as readLoop does.
+func (d *VerifDisc) Inject(from *net.UDPAddr, datagram []byte) error {
+	return d.t.handlePacket(from, append([]byte{}, datagram...))
+}
+
+// IsUnknownNode reports whether err is the rejection of an unbonded findnode.
+func VerifIsUnknownNode(err error) bool { return err == errUnknownNode }
+
+// WaitBondIdle waits until `pings` ping-backs have ended and no bonding process is running.
+func (d *VerifDisc) WaitBondIdle(pings int, max time.Duration) bool {
+	deadline := time.Now().Add(max)
+	for time.Now().Before(deadline) {
+		d.net.mu.Lock()
+		n := d.net.pings
+		d.net.mu.Unlock()
+		d.tab.bondmu.Lock()
+		busy := len(d.tab.bonding)
+		d.tab.bondmu.Unlock()
+		if n >= pings && busy == 0 {
+			return true
+		}
+		time.Sleep(5 * time.Millisecond)
+	}
+	return false
+}
+
+// Sent returns (and clears) what the node wrote since the last call.
+func (d *VerifDisc) Sent() []VerifSent {
+	d.conn.mu.Lock()
+	defer d.conn.mu.Unlock()
+	s := d.conn.sent
+	d.conn.sent = nil
+	return s
+}
+
+// HasBond is db.hasBond.
+func (d *VerifDisc) HasBond(id NodeID) bool { return d.tab.db.hasBond(id) }
+
+// VerifKindOf classifies a datagram the node sent: 'p','o','f','n' or 0.
+func VerifKindOf(netcompat bool, datagram []byte) byte {
+	if len(datagram) <= headSize {
+		return 0
+	}
+	t := datagram[headSize]
+	if netcompat && t < 133 {
+		t += 133
+	}
+	switch t {
+	case aquapingPacket:
+		return 'p'
+	case aquapongPacket:
+		return 'o'
+	case aquafindnodePacket:
+		return 'f'
+	case aquaneighborsPacket:
+		return 'n'
+	}
+	return 0
+}
+
+func (d *VerifDisc) Close() { d.tab.Close() }
